@@ -143,6 +143,8 @@ def check_closed_form(sc):
     m = make_model("nonscattering", "dort", rtsolver_options=dict(n_max_stream=sc["nmax"]))
     first = m.run(sensor_list.passive(sc["frequency"], [10.]), (atm + sp) if atm is not None else sp)
     ang = stream_angles(first)
+    # the directions are requested in an arbitrary order (seeded by the scene): the closed form is evaluated in the order of the result
+    ang = np.random.default_rng(int(sc["frequency"]) % 9973 + len(ang)).permutation(ang)
     res = m.run(sensor_list.passive(sc["frequency"], list(ang)), (atm + sp) if atm is not None else sp)
     ang2, ref = closed_form(sc, res, sp, atm)
     tb = np.asarray(res.data.values)
@@ -160,7 +162,7 @@ def check_bare(sc):
     m = make_model("nonscattering", "dort", rtsolver_options=dict(n_max_stream=sc["nmax"]))
     med = (atm + sp) if atm is not None else sp
     first = m.run(sensor_list.passive(sc["frequency"], [10.]), med)
-    ang = stream_angles(first)
+    ang = np.random.default_rng(len(stream_angles(first))).permutation(stream_angles(first))
     res = m.run(sensor_list.passive(sc["frequency"], list(ang)), med)
     mu = np.cos(np.deg2rad(ang))
     sub = sp.substrate
